@@ -21,7 +21,7 @@ import (
 // harness when it generated the tree), and whether the block and all its
 // ancestors are self-consistent. What it learns from the node: which offered
 // blocks the node has stored and which of those it has executed
-// (HasBlockAndState).
+// (read from the node's database and state cache, never through the block cache).
 type monitor struct {
 	c     *fw.Ctx
 	t     *ltree
@@ -49,6 +49,7 @@ type monitor struct {
 	restarts    int
 
 	sawTie, sawTieUnequal bool
+	callsSinceRestart     int
 	dead                  bool // a violation was recorded that makes the rest of the history meaningless
 }
 
@@ -90,6 +91,24 @@ func (m *monitor) close() {
 		m.bc.Stop()
 		m.bc = nil
 	}
+}
+
+// stored / executed read the node's database, not the chain object: a lookup
+// through BlockChain.GetBlock (HasBlock, HasBlockAndState) would put the block
+// into the chain's block cache and so change which code paths later imports
+// take (cache hit vs. database read). The monitor must not warm caches.
+func (m *monitor) stored(nd *lnode) bool {
+	h, num := nd.Block.Hash(), nd.Height
+	if len(core.GetHeaderRLP(m.db, h, num)) == 0 {
+		return false
+	}
+	return m.hdr || len(core.GetBodyRLP(m.db, h, num)) != 0
+}
+
+// executed: stored and the state of the root the block commits to is present
+// (opened through the state cache, which does not touch the block cache).
+func (m *monitor) executed(nd *lnode) bool {
+	return m.stored(nd) && m.bc.HasState(nd.Block.Root())
 }
 
 // count records an observation class, overall and per leg (the gates are per leg).
@@ -153,6 +172,7 @@ func (m *monitor) restart() {
 	}
 	m.bc = bc
 	m.restarts++
+	m.callsSinceRestart = 0
 	m.count("restart")
 	m.check("restart", nil, 0, nil)
 }
@@ -171,6 +191,7 @@ func (m *monitor) insert(b []int) {
 	}
 	n, err := m.bc.InsertChain(blocks)
 	m.calls++
+	m.callsSinceRestart++
 	m.c.Count("insert_calls")
 	reached := len(b)
 	if err != nil {
@@ -216,6 +237,7 @@ func (m *monitor) insertHeaders(b []int) {
 	}
 	n, err := m.bc.InsertHeaderChain(hs, 1)
 	m.calls++
+	m.callsSinceRestart++
 	m.c.Count("header_insert_calls")
 	if err != nil {
 		m.c.Violate("valid_block_rejected", m.opName(), errClass(err), fmt.Sprintf("batch %v: InsertHeaderChain returned (%d, %v) for valid linked headers", b, n, err))
@@ -254,9 +276,8 @@ func (m *monitor) check(after string, batch []int, n int, callErr error) {
 			continue
 		}
 		nd := t.Nodes[i]
-		h, num := nd.Block.Hash(), nd.Height
 		if m.hdr {
-			if nd.Valid && bc.HasHeader(h, num) && !m.validated[i] {
+			if nd.Valid && m.stored(nd) && !m.validated[i] {
 				m.validated[i] = true
 				if nd.TD.Cmp(m.maxVal) > 0 {
 					m.maxVal, m.maxValIdx = nd.TD, i
@@ -264,10 +285,10 @@ func (m *monitor) check(after string, batch []int, n int, callErr error) {
 			}
 			continue
 		}
-		if !bc.HasBlock(h, num) {
+		if !m.stored(nd) {
 			continue
 		}
-		if bc.HasBlockAndState(h, num) {
+		if m.executed(nd) {
 			if m.stateless[i] {
 				m.stateless[i] = false
 				m.count("side_block_executed_after_being_stored_without_state")
@@ -317,7 +338,7 @@ func (m *monitor) check(after string, batch []int, n int, callErr error) {
 		m.dead = true
 		return
 	} else if !m.validated[hi] {
-		c.Violate("head_not_fully_validated", op, "head_without_state", fmt.Sprintf("head is node %d (height %d) but HasBlockAndState is false", hi, headNum))
+		c.Violate("head_not_fully_validated", op, "head_without_state", fmt.Sprintf("head is node %d (height %d) but its block or state is not in the database", hi, headNum))
 	}
 	// heaviest among validated (equality of total difficulty: a tie may go either way)
 	if head.Valid && head.TD.Cmp(m.maxVal) != 0 {
@@ -328,7 +349,7 @@ func (m *monitor) check(after string, batch []int, n int, callErr error) {
 	// after a call that reported success
 	if !m.hdr && callErr == nil {
 		for i := 1; i < len(t.Nodes); i++ {
-			if m.given[i] && t.Nodes[i].Valid && !m.validated[i] && t.Nodes[i].TD.Cmp(head.TD) > 0 && bc.HasBlock(t.Nodes[i].Block.Hash(), t.Nodes[i].Height) {
+			if m.given[i] && t.Nodes[i].Valid && !m.validated[i] && t.Nodes[i].TD.Cmp(head.TD) > 0 && m.stored(t.Nodes[i]) {
 				c.Violate("heavier_valid_block_not_adopted", op, "stored_without_state",
 					fmt.Sprintf("after %s %v: node %d (height %d, ledger td %v) is stored, valid and heavier than the head (node %d, td %v) but was not executed", after, batch, i, t.Nodes[i].Height, t.Nodes[i].TD, hi, head.TD))
 				break
@@ -344,6 +365,13 @@ func (m *monitor) check(after string, batch []int, n int, callErr error) {
 		if !t.isAncestor(m.prevHead, hi) {
 			m.reorgs++
 			m.count("reorgs")
+			if head.Height >= t.Nodes[m.prevHead].Height+2 && len(batch) == 1 {
+				// the walk down the new branch passes blocks delivered by earlier calls
+				m.count("reorg_to_branch_two_longer_by_single_block")
+				if m.restarts > 0 && m.callsSinceRestart == 1 {
+					m.count("reorg_to_branch_two_longer_first_call_after_restart")
+				}
+			}
 			if head.Height < t.Nodes[m.prevHead].Height {
 				m.count("reorg_to_shorter_heavier")
 			} else if head.Height == t.Nodes[m.prevHead].Height {
@@ -391,10 +419,7 @@ func (m *monitor) check(after string, batch []int, n int, callErr error) {
 		}
 		nd := t.Nodes[i]
 		h, num := nd.Block.Hash(), nd.Height
-		stored := bc.HasHeader(h, num)
-		if !m.hdr {
-			stored = bc.HasBlock(h, num)
-		}
+		stored := m.stored(nd)
 		td := bc.GetTd(h, num)
 		tdDB := core.GetTd(m.db, h, num)
 		if !stored && td == nil && tdDB == nil {
